@@ -316,7 +316,10 @@ fn run<const D: usize>(case: &Case, log: &mut CaseLog) {
     }
     let mut nontrivial = removed > 0 || with_cell_data;
     // 4. corruptions: Err, or the loaded value passes independent L1 and L2
-    if case.corrupt && !so.cells.is_empty() && level_kinds(&so, g).iter().all(|k| !k.starts_with("L1") && !k.starts_with("L2")) {
+    if case.corrupt && !so.verts.is_empty() && level_kinds(&so, g).iter().all(|k| !k.starts_with("L1") && !k.starts_with("L2")) {
+        if so.cells.is_empty() {
+            log.class("corruptions_on_cell_less_document");
+        }
         let doc: Value = serde_json::from_str(&text).unwrap_or(Value::Null);
         // sanity of the corruption channel itself: the unmodified document must load through from_value
         if let Err(e) = serde_json::from_str::<TdsD<D>>(&doc.to_string()) {
@@ -388,7 +391,7 @@ pub fn strategy(dim: usize, max_ops: usize) -> BoxedStrategy<Case> {
     };
     (
         any::<u64>(),
-        start_strategy(dim, nmax, 0),
+        start_strategy(dim, nmax, 2),
         proptest::collection::vec(op_strategy(dim, MIX), 0..=max_ops),
         proptest::collection::vec((any::<u16>(), -50i32..50), 0..3),
         proptest::collection::vec(proptest::collection::vec(-40i16..=40, dim), 0..3),
